@@ -48,6 +48,32 @@ func init() {
 	regCache = make(map[string]*regexp.Regexp)
 }
 
+// numberCompare compares two numbers the way the `<` and `<=` operators
+// do: two integers are compared as integers, and an integer is compared
+// with a float as a float.
+//
+// The results are "a < b", "a <= b", and whether both arguments were
+// numbers at all.
+func numberCompare(a object.Object, b object.Object) (bool, bool, bool) {
+	switch x := a.(type) {
+	case *object.Integer:
+		switch y := b.(type) {
+		case *object.Integer:
+			return x.Value < y.Value, x.Value <= y.Value, true
+		case *object.Float:
+			return float64(x.Value) < y.Value, float64(x.Value) <= y.Value, true
+		}
+	case *object.Float:
+		switch y := b.(type) {
+		case *object.Integer:
+			return x.Value < float64(y.Value), x.Value <= float64(y.Value), true
+		case *object.Float:
+			return x.Value < y.Value, x.Value <= y.Value, true
+		}
+	}
+	return false, false, false
+}
+
 // fnBetween is the implementation of our between function.
 func fnBetween(args []object.Object) object.Object {
 
@@ -68,21 +94,14 @@ func fnBetween(args []object.Object) object.Object {
 	min := args[1]
 	max := args[2]
 
-	// val < min?
-	lower := fnMin([]object.Object{val, min})
-	if lower == val {
-
-		if val.Inspect() != min.Inspect() {
-			return &object.Boolean{Value: false}
-		}
+	// min <= val?
+	if _, lessEq, _ := numberCompare(min, val); !lessEq {
+		return &object.Boolean{Value: false}
 	}
 
-	// val > max
-	upper := fnMax([]object.Object{val, max})
-	if upper == val {
-		if val.Inspect() != max.Inspect() {
-			return &object.Boolean{Value: false}
-		}
+	// val <= max?
+	if _, lessEq, _ := numberCompare(val, max); !lessEq {
+		return &object.Boolean{Value: false}
 	}
 
 	return &object.Boolean{Value: true}
@@ -306,6 +325,14 @@ func fnMax(args []object.Object) object.Object {
 		return &object.Null{}
 	}
 
+	// Numbers are compared by value, not by their printed form.
+	if less, _, ok := numberCompare(args[0], args[1]); ok {
+		if less {
+			return args[1]
+		}
+		return args[0]
+	}
+
 	// Create an array.  Yeah.
 	elements := make([]object.Object, 2)
 	elements[0] = args[0]
@@ -328,6 +355,14 @@ func fnMin(args []object.Object) object.Object {
 	// We expect two arguments
 	if len(args) != 2 {
 		return &object.Null{}
+	}
+
+	// Numbers are compared by value, not by their printed form.
+	if less, _, ok := numberCompare(args[1], args[0]); ok {
+		if less {
+			return args[1]
+		}
+		return args[0]
 	}
 
 	// Create an array.  Yeah.
